@@ -2,7 +2,7 @@
 import itertools
 import random
 
-from vlib.par import pmap
+from vlib.par import pmap, timeout_failure
 
 PROPERTY = 'C11'
 LEVEL = 'other'
@@ -123,7 +123,7 @@ def bounded(tier, seed, repo_root):
     # accumulated costs beyond 2**16 (the cost matrices are numpy arrays of fixed width; integers are mathematical in the VC
     # generator): one pair whose strings differ by more than 65536 characters with a common character on the 2**16 contour
     huge = [('-' * 65535 + 'b' + '---', 'b')]
-    res = pmap(_check, pairs, repo_root, chunksize=500) + pmap(_check, huge, repo_root, chunksize=1)
+    res = pmap(_check, pairs, repo_root, chunksize=500, job_timeout=60, on_timeout=timeout_failure('C11')) + pmap(_check, huge, repo_root, chunksize=1, job_timeout=700, on_timeout=timeout_failure('C11'))
     pairs = pairs + huge
     fails = [f for fs in res for f in fs]
     return [{
